@@ -312,6 +312,9 @@ func runProperty(g *Gen, prop, tier, out string, cfg SolverCfg, t0 time.Time) in
 			if matched {
 				fmt.Printf("KNOWN-FINDING: property=%s %s: %s\n", prop, full, k.What)
 				knownHits = append(knownHits, full)
+				// a recorded finding is itemised on its own: it is neither counted as an obligation of
+				// the proof claim nor as discharged
+				total--
 				break
 			}
 		}
